@@ -1,6 +1,9 @@
 package parse
 
 import (
+	"sync"
+	"sync/atomic"
+
 	"github.com/robfig/soy/errortypes"
 )
 
@@ -257,4 +260,36 @@ func H_selectSelftest(n, k, mode int) {
 	}
 	verifObserveInt("sent", sent)
 	verifAssert(verifLiveGoroutines() == 0, "selftest: producer still alive")
+}
+
+// H_wgSelftest: machinery self-test of the engine's WaitGroup / atomic model under both run-queue
+// disciplines: n workers add their index atomically and send it on a buffered channel; after
+// Wait the sum is complete and every worker has exited.
+func H_wgSelftest(n int) {
+	verifSchedChoice()
+	var wg sync.WaitGroup
+	var sum int64
+	var av atomic.Value
+	res := make(chan int, n)
+	for i := 1; i <= n; i++ {
+		wg.Add(1)
+		go func(i int) {
+			defer wg.Done()
+			atomic.AddInt64(&sum, int64(i))
+			av.Store(i)
+			res <- i
+		}(i)
+	}
+	wg.Wait()
+	close(res)
+	total := 0
+	for v := range res {
+		total += v
+	}
+	verifAssert(total == n*(n+1)/2 && atomic.LoadInt64(&sum) == int64(total), "selftest: WaitGroup released before every worker was done")
+	if n > 0 {
+		_, ok := av.Load().(int)
+		verifAssert(ok, "selftest: atomic.Value lost its value")
+	}
+	verifAssert(verifLiveGoroutines() == 0, "selftest: worker still alive")
 }
